@@ -4,6 +4,7 @@ import (
 	"encoding/base64"
 	"encoding/json"
 	"fmt"
+	"github.com/dadrus/heimdall/internal/cache"
 	"sort"
 	"strings"
 
@@ -125,7 +126,7 @@ func Specs() []TypeSpec {
 					// custom headers without Accept: the resolver adds its default to a copy
 					"headers": map[string]any{"X-Static": "cat", "X-Meta": "m"},
 				},
-				"assertions":        map[string]any{"audience": []any{"aud-a"}},
+				"assertions": map[string]any{"audience": []any{"aud-a"}},
 			},
 			Overrides: assertionOverrides[1:],
 			Requests:  []Req{bearer("TOKEN_A"), bearer("TOKEN_B"), none},
@@ -148,7 +149,7 @@ func Specs() []TypeSpec {
 					// custom headers without Accept: the resolver adds its default to a copy
 					"headers": map[string]any{"X-Static": "cat", "X-Meta": "m"},
 				},
-				"assertions":        map[string]any{"audience": []any{"aud-a"}},
+				"assertions": map[string]any{"audience": []any{"aud-a"}},
 			},
 			Overrides: assertionOverrides[1:],
 			Requests:  []Req{opaque("tok-a"), opaque("tok-b"), none},
@@ -173,8 +174,8 @@ func Specs() []TypeSpec {
 					"url": "{S}/authz", "method": "POST",
 					"headers": map[string]any{"Content-Type": "application/json", "X-Val": "{{ .Values.a }}-{{ .Values.b }}"},
 				},
-				"payload":                              `{"sub":"{{ .Subject.ID }}","v":"cat"}`,
-				"expressions":                          []any{map[string]any{"expression": "Payload.allowed == true", "message": "cat"}},
+				"payload":     `{"sub":"{{ .Subject.ID }}","v":"cat"}`,
+				"expressions": []any{map[string]any{"expression": "Payload.allowed == true", "message": "cat"}},
 				// deliberately not in sorted order
 				"forward_response_headers_to_upstream": []any{"X-Other", "X-Authz", "X-More"},
 				"cache_ttl":                            "90s",
@@ -429,7 +430,7 @@ type Behaviour struct {
 }
 
 // execOnce runs one Execute of obj with the given request / subject.
-func execOnce(spec TypeSpec, obj any, r Req, subID string, cch *recCache) Outcome {
+func execOnce(spec TypeSpec, obj any, r Req, subID string, cch cache.Cache) Outcome {
 	ctx := NewCtx(r, cch)
 	out := Outcome{In: r.Name}
 
